@@ -18,7 +18,7 @@ VARIABLES desc, term, dense, pc
 vars == <<desc, term, dense, pc>>
 N == 4
 Cls == <<"Dense", "Diag", "ConstDiag", "Identity", "Toeplitz", "Chol", "Kron", "KronDiag", "KronAddedDiag", "SumKron", "AddedDiag",
-         "LRRAddedDiag", "Sum", "PsdSum", "ConstMul", "BlockDiag", "BlockInter", "BatchRepeat", "Mul", "AddedDiagI", "LRRAddedDiagI", "MixedDef", "LowRankHuge", "BlockDiagRepeat", "BlockInterRepeat", "SumBatchRepeat", "Interp">>
+         "LRRAddedDiag", "Sum", "PsdSum", "ConstMul", "BlockDiag", "BlockInter", "BatchRepeat", "Mul", "AddedDiagI", "LRRAddedDiagI", "MixedDef", "LowRankHuge", "BlockDiagRepeat", "BlockInterRepeat", "SumBatchRepeat", "Interp", "Interp2">>
 Batches == << <<>>, <<2>> >>
 DepthOf(c) == IF c \in G_LeafClasses THEN 0 ELSE 1
 
@@ -69,7 +69,7 @@ Init ==
   /\ \E ci \in 1..Len(Cls), bi \in 1..Len(Batches), qi \in 1..Len(Queries), t \in Thresholds, sd \in {1, 100000} :
        /\ ((ci + bi + qi + ThrId(t)) % NParts = Part)
        /\ (sd # 1 => Cls[ci] \in ScaledCls /\ Queries[qi][3] # "cov" /\ t.max_root = 100)
-       /\ (Tier = "quick" => IF Cls[ci] \in {"MixedDef", "LowRankHuge", "Interp"} \/ Queries[qi][1] = "sample_ciq_precond" THEN TRUE ELSE IF sd = 1 THEN ((ci + qi + ThrId(t) + bi) % 3 = 0)
+       /\ (Tier = "quick" => IF Cls[ci] \in {"MixedDef", "LowRankHuge", "Interp", "Interp2"} \/ Queries[qi][1] = "sample_ciq_precond" THEN TRUE ELSE IF sd = 1 THEN ((ci + qi + ThrId(t) + bi) % 3 = 0)
                              ELSE (Queries[qi][2] = "pivoted_cholesky" \/ (ci + qi + ThrId(t) + bi) % 5 = 0))
        \* the mixed-definiteness batch: Cholesky-type queries on its own batch shape only
        /\ (Cls[ci] = "MixedDef" => bi = 1 /\ sd = 1 /\ Queries[qi][1] \in {"cholesky", "linalg_cholesky"} /\ t.max_chol = 800)
@@ -79,7 +79,9 @@ Init ==
        /\ (Queries[qi][1] \in {"sample_ciq", "sample_ciq_precond"} => t.max_root = 100 /\ t.max_chol = 800 /\ ~t.fast_root)
        /\ (Queries[qi][1] = "sample_ciq_precond" => Cls[ci] \in {"AddedDiag", "AddedDiagI"})
        \* interpolated operators W K W^T (singular for fewer inducing points than rows): their own sampler only
-       /\ (Cls[ci] = "Interp" => Queries[qi][1] \in {"sample", "sample_scaled"} /\ sd = 1 /\ t.max_chol = 800)
+       \* (and the pivoted-Cholesky root, which must not be built from the class's deliberately approximate diagonal)
+       /\ (Cls[ci] \in {"Interp", "Interp2"} => (Queries[qi][1] \in {"sample", "sample_scaled"} \/ (Queries[qi][1] = "root_decomposition" /\ Queries[qi][2] = "pivoted_cholesky"))
+                                 /\ sd = 1 /\ t.max_chol = 800)
        /\ desc = [cls |-> Cls[ci], b |-> Batches[bi], query |-> Queries[qi][1], method |-> Queries[qi][2], relation |-> Queries[qi][3],
                   exact |-> ExactUnder(Queries[qi], t), thr |-> t, id |-> (((ci * 4 + bi) * 64 + qi) * 8 + ThrId(t)) * 2 + (IF sd = 1 THEN 0 ELSE 1),
                   sden |-> sd,
